@@ -23,7 +23,9 @@ CLAIM = {
             "one input and exactly one segwit flag (so the flag vector stays aligned with the inputs), `true` is "
             "pushed only on the branch where the spent output of the streamed previous transaction is a witness "
             "program and `false` only elsewhere, the previous transaction is accepted only if its txid equals the "
-            "input's outpoint txid and the output index exists, and the encoder writes exactly the wrapped PSBT. "
+            "input's outpoint txid and the output index exists, a sender-supplied witness_utxo is compared as a "
+            "whole TxOut (or every field of it) with that proven output and a mismatch is refused, otherwise "
+            "witness_utxo is assigned from it, and the encoder writes exactly the wrapped PSBT. "
             "(R19.5) no size limit handed to read_to_limit / take in a decoder is below MAX_MESSAGE_SIZE. "
             "Does not decide value-level round-trip equality (runtime values).",
     "note": "rustc const evaluation of associated consts; bitcoin_consensus_derive / serde_bolt primitive codecs trusted",
@@ -480,6 +482,45 @@ def r194(ctx, rid="R19.4"):
         ctx.ob(rid, bool(dife) and not bad, f"{key}/txid-mismatch-refused",
                "an input is accepted although the streamed previous transaction's txid differs from the input's outpoint",
                where=f"{b.file}:{line}", sample=f"{r0[:50]} != {r1[:50]} => input not pushed")
+    # previous outputs: an input that came with a streamed previous transaction leaves the loop with witness_utxo equal to
+    # the proven output - either assigned from it, or (when the sender supplied one) compared with it as a whole value
+    TXOUT_FIELDS = {".value", ".script_pubkey"}          # bitcoin::TxOut (external type, by name)
+    PV = ".previous_output.vout]"
+
+    def sides(r0, r1):
+        """(suffix compared on the witness_utxo side, suffix on the proven-output side) or None"""
+        for x, y in ((r0, r1), (r1, r0)):
+            if "witness_utxo?" in x and "non_witness_utxo" not in x and "non_witness_utxo" in y and ".output[" in y and PV in y:
+                return x.split("witness_utxo?", 1)[1], y.rsplit(PV, 1)[1]
+        return None
+    weq = [(x, sides(x[4], x[5])) for x in R.eq_sites(fv, lambda x, y: sides(x, y) is not None)]
+    covered = {sx for _, (sx, sy) in weq if sx == sy}
+    crossed = [(x[1], sx, sy) for x, (sx, sy) in weq if sx != sy]
+    whole = "" in covered or TXOUT_FIELDS <= covered
+    ctx.ob(rid, whole and not crossed, f"{key}/witness-utxo-compared-whole",
+           "a sender-supplied witness_utxo is not compared as a whole value with the output of the streamed previous transaction "
+           f"(compared: {sorted(covered) or 'nothing'}" + (f"; mixed operands {crossed[0][1]} vs {crossed[0][2]}" if crossed else "")
+           + "): a previous output differing in the uncompared part is accepted",
+           where=f"{b.file}:{weq[0][0][1] if weq else nc.line}", sample="txo != output (whole TxOut)")
+    wassign = set()
+    for bi in in_loop:
+        for st in b.stmts(bi):
+            if st.kind == "a" and R._writes_field(st.place, "Input", "witness_utxo"):
+                wassign.add(bi)
+    proven_wit = [(wbi, wc) for wbi, wc in wit if proven(fv.expr(wc.args[0]))]
+    for (cbi, line, eqe, dife, r0, r1), (sx, sy) in weq:
+        bad = [bi for bi, c in inp if any(bi in fv.reach(v, cut_nodes={h}) for (_, v) in dife)]
+        ctx.ob(rid, bool(dife) and not bad, f"{key}/witness-utxo-mismatch-refused/{sx or 'whole'}",
+               "an input is accepted although its witness_utxo differs from the output of the streamed previous transaction",
+               where=f"{b.file}:{line}", sample="txo != output => input not pushed")
+        # on the streamed-previous-transaction branch the input is pushed only after this comparison or after the
+        # assignment of the proven output
+        for wbi, wc in proven_wit:
+            esc = [c.line for bi, c in inp if bi in fv.reach(wbi, cut_nodes=wassign | {h}, cut_edges=eqe | dife)]
+            ctx.ob(rid, not esc, f"{key}/prevout-proven-or-compared/{sx or 'whole'}",
+                   f"an input with a streamed previous transaction can be pushed (line {esc[0] if esc else 0}) with a witness_utxo that "
+                   "was neither taken from nor compared with the proven output", where=f"{b.file}:{wc.line}",
+                   sample="after the proven-output test: witness_utxo assigned from it or compared with it")
     # the struct literal takes the flags vector built in the loop
     n = 0
     for bb, bi, si, s in R.constructions(p, P + "psbt::StreamedPSBT"):
